@@ -14,7 +14,7 @@ error is latched) — under any faults:
   Blocked mode means the end of the data, unless the source itself reported a clean end of input at a member
   start (`ReadRes.eofEnd`);
 * a `Seek` either succeeds (no error latched afterwards) or latches the error it returns. -/
-def StepOK (F : File) (x : FReader) (pos : Nat) (op : Op) (out : Out) (x' : FReader) : Prop :=
+def FaultStepOK (F : File) (x : FReader) (pos : Nat) (op : Op) (out : Out) (x' : FReader) : Prop :=
   match op with
   | .read n =>
     (∀ e, x.r.err = some e → out.bytes = [] ∧ out.err = some e ∧ x' = x) ∧
@@ -34,17 +34,17 @@ def nextPos (L : Layout) (pos : Nat) (op : Op) (out : Out) : Nat :=
   | .seek o => if out.err = none then (seekTarget L o).getD pos else pos
   | _ => pos + out.bytes.length
 
-/-- Every operation of a history is `StepOK` at the position tracked through the bytes returned and the
+/-- Every operation of a history is `FaultStepOK` at the position tracked through the bytes returned and the
 successful seeks. -/
 def RunOK (F : File) : FReader → Nat → List Op → Prop
   | _, _, [] => True
   | x, pos, op :: ops =>
-    StepOK F x pos op (x.step op).2 (x.step op).1 ∧
+    FaultStepOK F x pos op (x.step op).2 (x.step op).1 ∧
     RunOK F (x.step op).1 (nextPos (layoutOf F) pos op (x.step op).2) ops
 
 theorem fstep_ok {F : File} (hwf : WF F) {x : FReader} {pos : Nat} (hi : FInv F x pos) (op : Op)
     (hv : OpValid (layoutOf F) op) :
-    StepOK F x pos op (x.step op).2 (x.step op).1 ∧
+    FaultStepOK F x pos op (x.step op).2 (x.step op).1 ∧
     FInv F (x.step op).1 (nextPos (layoutOf F) pos op (x.step op).2) := by
   cases op with
   | read n =>
